@@ -79,3 +79,7 @@ package v1alpha1
 //@   ensures [spec] result == urlSpec(nonResourceURLs, request)
 //@   loop 0: invariant [bounds] 0 <= idx && idx <= len(filtered)
 //@   loop 0: invariant [none] forall k int :: {filtered[k]} 0 <= k && k < idx ==> filtered[k].reverse || !globEntry(filtered[k].value, request)
+
+//@ func Resource props C18, C07
+//@   trusted "generated helper: builds a schema.GroupResource value from a constant group and the argument"
+//@   pure
